@@ -79,6 +79,7 @@ def check_case(ctx, case):
     except BaseException as e:  # noqa
         raise core.HarnessError("generated module does not import: %r\n%s" % (e, text))
     try:
+        RD.shadow_globals(mod, case.get("shadow"))
         exc = RD.call(mod, role, is_async, inputs)
         m_set = set(exprlib.PROBES)
         err_instance = mod.mod.ERR_INSTANCE
@@ -146,6 +147,8 @@ def check_case(ctx, case):
     ctx.count("nest:" + lay["nest"])
     ctx.count("error:" + errform)
     ctx.count("role:" + role + ("/async" if is_async else ""))
+    if case.get("shadow"):
+        ctx.count("module globals named like the parameters")
     if undefined_later:
         ctx.count("guard-false(later operand undefined)")
     ctx.case([ctext, role, is_async, errform, lay, case["inputs"]], nt, sample=lambda: {
@@ -175,7 +178,16 @@ def st_case(draw, tier):
         inputs["t"] = []
     if draw(st.booleans()):
         inputs["q"] = 0
-    return {"text": text, "params": GR.free_params(text), "features": feats, "role": role,
+    # module globals named like the parameters, bound to values on the OTHER side of every guard
+    shadow = draw(GR.st_inputs(long_values=False)) if draw(st.integers(0, 3)) else None
+    if shadow is not None:
+        shadow["xs"] = [7, -3] if not inputs["xs"] else []
+        shadow["n"] = 4 if not inputs["n"] else 0
+        shadow["o"]["child"] = ({"n": 2, "items": [1], "child": None} if inputs["o"]["child"] is None else None)
+        shadow["t"] = [5, 6] if not inputs["t"] else []
+        shadow["q"] = 2 if not inputs["q"] else 0
+        feats = list(feats) + ["shadowing-globals"]
+    return {"text": text, "params": GR.free_params(text), "features": feats, "role": role, "shadow": shadow,
             "async": role != "invariant" and draw(st.integers(0, 3)) == 0, "inputs": inputs,
             "layout": draw(LY.st_layout(role)), "error": draw(st.sampled_from(["default", "default", "class", "instance"]))}
 
@@ -201,8 +213,9 @@ def directed(ctx, only=None):
     extra = [("all(y > 1 for y in xs if y != 5 if 10 // (y - 5) < 100)", {"xs": [7, 5, 0]}),
              ("add(*xs) > 1000", {})]
     i = 0
+    full = dict(base, zs=[], q=0)
     for tmpl, params in GR.GUARDED:
-        for side in sides:
+        for si, side in enumerate(sides):
             for kind in LY.LAYOUTS:
                 i += 1
                 if only is not None and only != i:
@@ -210,8 +223,11 @@ def directed(ctx, only=None):
                 inputs = dict(base)
                 inputs.update(side)
                 text = GR.canon(tmpl.format(k=9))
+                # module globals named like the parameters carry the values of the OTHER side of the guard
+                shadow = dict(full)
+                shadow.update(sides[1 - si])
                 check_case(ctx, {"text": text, "params": GR.free_params(text), "features": ["guarded"], "role": "require",
-                                 "async": False, "inputs": inputs, "error": "default", "directed": i,
+                                 "async": False, "inputs": inputs, "error": "default", "directed": i, "shadow": shadow,
                                  "layout": {"kind": kind, "nest": "func", "above": [], "below": []}})
     for text, over in extra:
         i += 1
